@@ -25,7 +25,7 @@ def tla_seq(xs):
 def run(R):
     R.rule = ("cases = (string, spelling, mode): every string up to MaxLen symbols over 27 characters (all shell specials, blank, tab, "
               "newline, a multi-byte character) x {single, double, backslash, mixed} x {default, Arith, Assign, Literal, Quote, "
-              "Pattern}; exhaustive; distinct_nontrivial = distinct strings containing at least one character that is special to the shell")
+              "Pattern}; exhaustive, plus seeded random strings of 4-8 symbols; distinct_nontrivial = distinct strings containing at least one character that is special to the shell")
     R.assumptions = ["the environment is fixed and adversarial (IFS 'a :<tab><nl>*$', HOME, 3 positional parameters, files aa b * ? [ ~ ..., a directory a holding a and *)",
                      "Pattern mode is judged with Pattern.tla's parser and matcher on the returned pattern"]
     maxlen = 3 if R.tier == "quick" else 4
@@ -36,6 +36,19 @@ def run(R):
     want = sum(len(ALPHA) ** i for i in range(maxlen + 1))
     if len(cases) != want:
         raise vlib.MachineryError("Quote: %d cases, expected %d" % (len(cases), want))
+    # seeded random longer strings (TLC -simulate over the same machine)
+    cfg2 = "INIT Init\nNEXT Next\nINVARIANT Emit\nCONSTANTS\n Alpha <- MCAlpha\n MaxLen = 8\n"
+    sim = R.tlc("Quote", cfg2, defs=defs, name="QuoteSim", simulate="num=%d" % (6 if R.tier == "quick" else 120), depth=9, workers=8, timeout=3000)
+    seen = set(tuple(c["s"]) for c in cases)
+    nsim = 0
+    for p in sim.prints:
+        if p and p[0] == "CASE":
+            c = json.loads(p[1])
+            if len(c["s"]) > maxlen and tuple(c["s"]) not in seen:
+                seen.add(tuple(c["s"]))
+                cases.append(c)
+                nsim += 1
+    R.notes["random_longer_strings"] = nsim
     obs, _ = R.drive("quote", cases, shards=vlib.NCPU)
     if len(obs) != len(cases):
         raise vlib.MachineryError("driver returned %d of %d" % (len(obs), len(cases)))
